@@ -69,6 +69,24 @@ Definition w_compact (in_use : list Z) (i : Z) : option Z := omap Z.of_nat (zind
 Definition w_written (p : parsed) (k : nat) (in_use : list Z) : list wrow :=
   filter (fun x => match w_compact in_use (nid_ns (snd (fst x))) with Some c => Z.eqb c 1 | None => false end) (w_nodes1 p k).
 
+(* lookup: original NodeId of a node in use -> its NodeId in the written document; text_of: its text ("nan" for an unknown id) *)
+Definition w_lookup (p : parsed) (k : nat) (in_use : list Z) (n : nodeid) : option nodeid :=
+  match find (fun x : wrow => nid_eqb (nr_nodeid (fst (fst x))) n) (w_nodes1 p k) with
+  | Some x => omap (with_nid_ns n) (w_compact in_use (nid_ns (snd (fst x))))
+  | None => None end.
+Definition w_text_of (p : parsed) (k : nat) (in_use : list Z) (n : nodeid) : str :=
+  match w_lookup p k in_use n with Some m => print_nodeid m | None => lit "nan" end.
+(* generate_references_xml + the join in generate_nodes_xml: the Reference elements under the node `me` *)
+Definition w_ref_elems (p : parsed) (k : nat) (in_use : list Z) (refs : list triple) (me : nodeid) : list ref_elem :=
+  let text_of := w_text_of p k in_use in
+  let written_ids := map (fun x : wrow => nr_nodeid (fst (fst x))) (w_written p k in_use) in
+  flat_map (fun t : triple =>
+    let '(s, tg, ty) := t in
+    (* the join is on the NodeId texts of the written nodes *)
+    if existsb (fun wid => str_eqb (text_of tg) (text_of wid)) written_ids then
+      (if str_eqb (text_of tg) (text_of me) then [{| re_attrs := [(lit "ReferenceType", text_of ty); (lit "IsForward", lit "false")]; re_text := Some (text_of s) |}] else [])
+    else if str_eqb (text_of s) (text_of me) then [{| re_attrs := [(lit "ReferenceType", text_of ty)]; re_text := Some (text_of tg) |}] else []) refs.
+
 Definition write_doc (p : parsed) (w : wparams) : res doc :=
   match str_index (wp_uri w) (p_namespaces p) with
   | None => Err EValue
@@ -84,14 +102,9 @@ Definition write_doc (p : parsed) (w : wparams) : res doc :=
       let compact := w_compact in_use in
       match newl2 with
       | _ :: u1 :: _ =>
-          (* lookup: original NodeId of a node in use -> its NodeId in the written document *)
-          let lookup (n : nodeid) : option nodeid :=
-            match find (fun x => nid_eqb (nr_nodeid (fst (fst x))) n) nodes1 with
-            | Some x => omap (with_nid_ns n) (compact (nid_ns (snd (fst x))))
-            | None => None end in
-          let text_of (n : nodeid) : str := match lookup n with Some m => print_nodeid m | None => lit "nan" end in
+          let lookup := w_lookup p k in_use in
+          let text_of := w_text_of p k in_use in
           let written := w_written p k in_use in
-          let written_ids := map (fun x => nr_nodeid (fst (fst x))) written in
           let node_elem_of (x : node_row * nodeid * option Z) : node_elem :=
             let r := fst (fst x) in
             let me := nr_nodeid r in
@@ -114,12 +127,7 @@ Definition write_doc (p : parsed) (w : wparams) : res doc :=
                                 end) WRITTEN_ATTRS;
                ne_display := Some (match nr_display r with [] => None | d => Some d end);
                ne_desc := Some (match nr_desc r with [] => None | d => Some d end);
-               ne_refs := flat_map (fun t =>
-                            let '(s, tg, ty) := t in
-                            (* the join is on the NodeId texts of the written nodes *)
-                            if existsb (fun wid => str_eqb (text_of tg) (text_of wid)) written_ids then
-                              (if str_eqb (text_of tg) (text_of me) then [{| re_attrs := [(lit "ReferenceType", text_of ty); (lit "IsForward", lit "false")]; re_text := Some (text_of s) |}] else [])
-                            else if str_eqb (text_of s) (text_of me) then [{| re_attrs := [(lit "ReferenceType", text_of ty)]; re_text := Some (text_of tg) |}] else []) refs;
+               ne_refs := w_ref_elems p k in_use refs me;
                ne_value := if str_eqb (nr_cls r) (lit "UAVariable") || str_eqb (nr_cls r) (lit "UAVariableType")
                            then match nr_value r with Some v => omap (fun t => NElem NODESET_NS (lit "Value") [] None [t]) (vtree v) | None => None end
                            else None |} in
